@@ -90,11 +90,16 @@ Definition enc (k : kind) (i : id) : list Z :=
   end.
 
 (** ** Constructors: [NewXxxID(.., size)] = build, Verify, return.  Result: the encoding the value marshals to. *)
-Definition new (k : kind) (sz : Z) (i : id) : option id :=
-  if verify k sz i then Some (canon k i) else None.
+Definition fits_encoding (k : kind) (i : id) : bool :=
+  match k with
+  | KRangeV0 => b i <=? 65535   (* NewRangeNamespaceDataIDV0: "does not fit the 16-bit indices of the V0 encoding" *)
+  | _ => true
+  end.
 
-(** ** Decoders ([XxxFromBinary]).  As written: note that [RowNamespaceDataIDFromBinary] builds the namespace
-    with [NewNamespaceFromBytes] (= [ns_valid]) and does **not** call [Validate]. *)
+Definition new (k : kind) (sz : Z) (i : id) : option id :=
+  if verify k sz i && fits_encoding k i then Some (canon k i) else None.
+
+(** ** Decoders ([XxxFromBinary]): length, EdsID (height <> 0), fields, then [Validate]. *)
 Definition slice (bs : list Z) (from len : nat) : list Z := firstn len (skipn from bs).
 
 Definition dec (k : kind) (bs : list Z) : option id :=
@@ -108,7 +113,8 @@ Definition dec (k : kind) (bs : list Z) : option id :=
   | KNd => let n := slice bs 8 29 in
            if ns_valid n && ns_valid_for_data n then Some (mkid hh 0 0 n) else None
   | KRnd => let n := slice bs 10 29 in
-            if ns_valid n then Some (mkid hh (unbe (slice bs 8 2)) 0 n) else None
+            let i := mkid hh (unbe (slice bs 8 2)) 0 n in
+            if ns_valid n && validate KRnd i then Some i else None
   | KRange => let i := mkid hh (unbe (slice bs 8 4)) (unbe (slice bs 12 4)) [] in
               if validate KRange i then Some i else None
   | KRangeV0 => let i := mkid hh (unbe (slice bs 8 2)) (unbe (slice bs 10 2)) [] in
